@@ -110,6 +110,10 @@ fn main() {
                 "history" => history::replay_history(&ctx, case),
                 "sched" => sched::replay(&ctx, case),
                 "c18" => history::replay_c18(case),
+                "nolog" => {
+                    eprintln!("replay: re-run `./check C17 quick`; the corpus entry is in the replay file (entry, result index)");
+                    2
+                }
                 "kernel" => match case["kind"].as_str().unwrap_or("") {
                     "gamma" | "gamma-pair" => kernel::replay_gamma(case),
                     "matrix" => kernel::replay_matrix(&ctx, case),
